@@ -473,6 +473,276 @@ def gen_triple(job, out, rng):
     return rec
 
 
+
+# ----------------------------------------------------------------------------------------------
+# C23: DiscreteStridedIntervalSet
+# ----------------------------------------------------------------------------------------------
+
+def mk_dsis(ts):
+    from claripy.backends.backend_vsa import DiscreteStridedIntervalSet
+    if len(ts) == 1:
+        return mk(ts[0])
+    return DiscreteStridedIntervalSet(bits=ts[0][0], si_set={mk(t) for t in ts})
+
+
+def dsis_population(W, mod3):
+    """member lists: every 2-subset of WFSet(W), and every mod3-th 3-subset (deterministic)"""
+    pop = wf_population(W)
+    out = [list(c) for c in itertools.combinations(pop, 2)]
+    out += [list(c) for i, c in enumerate(itertools.combinations(pop, 3)) if i % mod3 == 0]
+    return out
+
+
+DSIS_BIN = {"add": "__add__", "sub": "__sub__", "mul": "__mul__", "udiv": "__floordiv__", "mod": "__mod__",
+            "and": "__and__", "or": "__or__", "xor": "__xor__", "shl": "__lshift__", "lshr": "LShR",
+            "ashr": "__rshift__"}
+
+
+def dsis_events(rec, A, B, ops, ctx, kinds):
+    """A, B: member lists (a 1-element list is a plain interval)"""
+    sa, sb = [strip(t) for t in A], [strip(t) for t in B]
+    fresh = lambda: (mk_dsis(A), mk_dsis(B))  # noqa: E731
+    if "bin" in kinds:
+        for op, beop in DSIS_BIN.items():
+            if ops and op not in ops:
+                continue
+            rec.emit({"k": "bin", "op": op, "A": sa, "B": sb, "ctx": ctx},
+                     run2(lambda a, b, o=beop: be_call(o, (a, b)), None, fresh))
+    if "cmp" in kinds:
+        for op, (beop, _m) in CMP.items():
+            if ops and op not in ops:
+                continue
+            rec.emit({"k": "cmp", "op": op, "A": sa, "B": sb, "ctx": ctx},
+                     run2(lambda a, b, o=beop: be_call(o, (a, b)), None, fresh))
+    if "cat" in kinds and (not ops or "concat" in ops):
+        rec.emit({"k": "cat", "op": "concat", "A": sa, "B": sb, "ctx": ctx},
+                 run2(lambda a, b: be_call("Concat", (a, b)), None, fresh))
+    if "join" in kinds:
+        for name in ("union", "widen"):
+            if ops and name not in ops:
+                continue
+            rec.emit({"k": "join", "op": name, "A": sa, "B": sb, "C": [], "n": 2, "ctx": ctx},
+                     run2(None, lambda a, b, nm=name: getattr(a, nm)(b), fresh))
+    if "meet" in kinds and (not ops or "intersection" in ops):
+        rec.emit({"k": "meet", "op": "intersection", "A": sa, "B": sb, "ctx": ctx},
+                 run2(None, lambda a, b: a.intersection(b), fresh))
+
+
+def dsis_unary(rec, A, ctx, maxw):
+    sa = [strip(t) for t in A]
+    w = A[0][0]
+    fresh = lambda: (mk_dsis(A),)  # noqa: E731
+    rec.emit({"k": "un", "op": "neg", "A": sa, "p": [], "ctx": ctx}, run2(lambda a: be_call("__neg__", (a,)), None, fresh))
+    rec.emit({"k": "un", "op": "not", "A": sa, "p": [], "ctx": ctx}, run2(lambda a: be_call("__invert__", (a,)), None, fresh))
+    for w2 in range(w + 1, maxw + 1):
+        rec.emit({"k": "un", "op": "zext", "A": sa, "p": [w2], "ctx": ctx},
+                 run2(lambda a, n=w2 - w: be_call("ZeroExt", (n, a)), None, fresh))
+        rec.emit({"k": "un", "op": "sext", "A": sa, "p": [w2], "ctx": ctx},
+                 run2(lambda a, n=w2 - w: be_call("SignExt", (n, a)), None, fresh))
+    for hi in range(w):
+        for lo in range(hi + 1):
+            rec.emit({"k": "un", "op": "extract", "A": sa, "p": [hi, lo], "ctx": ctx},
+                     run2(lambda a, h=hi, l=lo: be_call("Extract", (h, l, a)), None, fresh))
+
+
+def set_query_event(obj_factory, members, w, ctx, single=True):
+    """queries on a DSIS / ValueSet: enumerations may be partial, cardinality an upper bound"""
+    m = 1 << w
+    qexc, evals = [], []
+    for n in [0, 1, 2, 3, m, m + 1]:
+        exc, v = guarded(lambda: obj_factory().eval(n))
+        if exc:
+            qexc.append("eval:" + exc)
+        else:
+            evals.append([n, [I(z) for z in v]])
+    card = []
+    exc, v = guarded(lambda: obj_factory().cardinality)
+    if exc:
+        qexc.append("card:" + exc)
+    else:
+        card = [I(v)]
+    mm, none = [], 0
+    if single:
+        vals = []
+        x = obj_factory()
+        for f in (lambda: x.min(), lambda: x.max(), lambda: x.min(signed=True), lambda: x.max(signed=True)):
+            exc, v = guarded(f)
+            if exc:
+                qexc.append("minmax:" + exc)
+            vals.append(None if exc else v)
+        if all(v is None for v in vals):
+            none = 1
+        elif all(v is not None for v in vals):
+            mm = [I(v) for v in vals]
+    return {"k": "q", "op": "query", "mode": "set", "A": [strip(t) for t in members], "evals": evals, "sevals": [],
+            "mm": mm, "none": none, "card": card, "sols": [], "qexc": sorted(set(qexc)), "cls": 0, "exc": "",
+            "how": "meth", "ctx": ctx}
+
+
+def gen_dsis(job, out, rng):
+    import claripy.backends.backend_vsa as vsa
+    import claripy.backends.backend_vsa.discrete_strided_interval_set as dmod
+    W = job["W"]
+    ctx = "dsis"
+    if job.get("collapse"):
+        # lower the collapse threshold for the run: results that grow past it collapse to one interval
+        dmod.DEFAULT_MAX_CARDINALITY_WITHOUT_COLLAPSING = job["collapse"]
+        vsa.DEFAULT_MAX_CARDINALITY_WITHOUT_COLLAPSING = job["collapse"]
+        ctx = "dsis-c%d" % job["collapse"]
+    popD = dsis_population(W, job.get("mod3", 13))
+    popS = [[t] for t in wf_population(W)]
+    rec = Rec(out, 0)
+    part, nparts = job.get("part", 0), job.get("nparts", 1)
+    ops = job.get("ops")
+    kinds = set(job.get("kinds", ["bin", "cmp", "cat", "join", "meet"]))
+    modp = job.get("mod_dd", 1)
+    i = 0
+    for A in popD:
+        i += 1
+        if i % nparts != part:
+            continue
+        if "un" in job.get("extra", ["un", "q"]):
+            dsis_unary(rec, A, ctx, job.get("maxw", 4))
+        if "q" in job.get("extra", ["un", "q"]):
+            ev = set_query_event(lambda: mk_dsis(A), A, W, ctx)
+            out.write(ev, nontrivial_key=["q", ev["A"], ctx], outcome="q" if not ev["qexc"] else "qexc")
+        for B in popS:
+            dsis_events(rec, A, B, ops, ctx, kinds)            # DSIS op SI
+            dsis_events(rec, B, A, ops, ctx, kinds & {"bin", "cmp", "join", "meet"})   # SI op DSIS
+        for j, B in enumerate(popD):
+            if (i * 7919 + j) % modp == 0:
+                dsis_events(rec, A, B, ops, ctx, kinds)        # DSIS op DSIS (deterministic slice)
+    # union of plain intervals with the DSIS switch on (StridedInterval.union -> DSIS)
+    if job.get("union_si") and part == 0:
+        from claripy.backends.backend_vsa.strided_interval import _allow_dsis
+        with _allow_dsis(True):
+            for a in popS:
+                for b in popS:
+                    rec.emit({"k": "join", "op": "union", "A": [strip(a[0])], "B": [strip(b[0])], "C": [], "n": 2,
+                              "ctx": ctx + "-flag"},
+                             run2(None, lambda x, y: x.union(y), lambda: (mk(a[0]), mk(b[0]))))
+    return rec
+
+
+# ----------------------------------------------------------------------------------------------
+# C23: ValueSet
+# ----------------------------------------------------------------------------------------------
+
+def mk_vs(spec, W):
+    """spec: [[region, base, tuple], ...] -> ValueSet built the way BackendVSA.apply_annotation builds it"""
+    from claripy.backends.backend_vsa import ValueSet
+    vs = ValueSet.empty(W)
+    for region, base, t in spec:
+        vs._merge_si(region, base, mk(t))
+    return vs
+
+
+def vs_enc(spec):
+    rg = sorted({r for r, _, _ in spec})
+    return {"rg": rg, "si": [[strip(t) for r, _, t in spec if r == g] for g in rg]}
+
+
+def vs_population(W, mod2):
+    pop = wf_population(W)
+    out = []
+    for t in pop:
+        out.append([["global", 0, t]])
+        out.append([["stack", 1, t]])
+    k = 0
+    for a in pop:
+        for b in pop:
+            k += 1
+            if k % mod2 == 0:
+                out.append([["global", 0, a], ["stack", 1, b]])
+    return out
+
+
+EMPTY_VS = {"rg": [], "si": []}
+
+
+def vs_emit(out, base, outcomes, stats):
+    merged = []
+    for how, exc, kind, payload in outcomes:
+        if exc in ("NotImplementedError", "BackendUnsupportedError", "BackendError"):
+            stats["unsupported"] = stats.get("unsupported", 0) + 1
+            continue
+        for m in merged:
+            if m[1:] == [exc, kind, payload]:
+                m[0] += "+" + how
+                break
+        else:
+            merged.append([how, exc, kind, payload])
+    for how, exc, kind, payload in merged:
+        ev = dict(base)
+        ev.update({"how": how, "exc": exc, "cls": 0, "rt": kind or "none", "R": [], "Rv": EMPTY_VS, "rb": [1, 1]})
+        ev.setdefault("p", [])
+        ev.setdefault("wb", 0)
+        if not exc:
+            if kind == "si":
+                ev["R"] = payload
+            elif kind == "vs":
+                ev["Rv"] = payload
+            elif kind == "bool":
+                ev["rb"] = payload
+            else:
+                ev["exc"] = "ResultType:" + str(payload)
+        out.write(ev, nontrivial_key=["vs", ev["op"], ev["Av"], ev["bt"], ev["B"], ev["Bv"], ev["p"]],
+                  outcome=(ev["exc"] or "ok"),
+                  sample={kk: ev[kk] for kk in ("k", "op", "how", "Av", "bt", "B", "Bv", "rt", "R", "Rv", "rb")})
+
+
+VS_BIN = {"add": "__add__", "sub": "__sub__", "and": "__and__", "mod": "__mod__", "lshr": "LShR"}
+
+
+def gen_vs(job, out, rng):
+    W = job["W"]
+    popV = vs_population(W, job.get("mod2", 5))
+    popS = wf_population(W)
+    part, nparts = job.get("part", 0), job.get("nparts", 1)
+    stats = {}
+    modvv = job.get("mod_vv", 7)
+    for i, sa in enumerate(popV):
+        if i % nparts != part:
+            continue
+        Av = vs_enc(sa)
+        members = [t for _, _, t in sa]
+        ev = set_query_event(lambda: mk_vs(sa, W), members, W, "vs", single=len(sa) == 1)
+        out.write(ev, nontrivial_key=["q", ev["A"], "vs", Av["rg"]], outcome="q" if not ev["qexc"] else "qexc")
+        for hi in range(W):
+            for lo in range(hi + 1):
+                vs_emit(out, {"k": "vs", "op": "extract", "w": W, "Av": Av, "bt": "none", "B": [], "Bv": EMPTY_VS,
+                              "p": [hi, lo], "ctx": "vs"},
+                        run2(lambda a, h=hi, l=lo: be_call("Extract", (h, l, a)), None, lambda: (mk_vs(sa, W),)), stats)
+        for tb in popS:
+            B = [strip(tb)]
+            base = {"k": "vs", "w": W, "Av": Av, "bt": "si", "B": B, "Bv": EMPTY_VS, "ctx": "vs"}
+            fresh = lambda: (mk_vs(sa, W), mk(tb))  # noqa: E731
+            for op, beop in VS_BIN.items():
+                vs_emit(out, {**base, "op": op}, run2(lambda a, b, o=beop: be_call(o, (a, b)), None, fresh), stats)
+            # interval + value set (reflected operand)
+            vs_emit(out, {**base, "op": "add"},
+                    [("be-r", *x[1:]) for x in run2(lambda a, b: be_call("__add__", (b, a)), None, fresh)], stats)
+            for op in ("eq", "ne", "ULT", "SGE"):
+                vs_emit(out, {**base, "op": op},
+                        run2(lambda a, b, o=CMP[op][0]: be_call(o, (a, b)), None, fresh), stats)
+            for name in ("union", "widen", "intersection"):
+                vs_emit(out, {**base, "op": name}, run2(None, lambda a, b, nm=name: getattr(a, nm)(b), fresh), stats)
+            vs_emit(out, {**base, "op": "concat", "wb": W},
+                    run2(lambda a, b: be_call("Concat", (a, b)), None, fresh), stats)
+        for j, sb in enumerate(popV):
+            if (i * 7919 + j) % modvv != 0:
+                continue
+            base = {"k": "vs", "w": W, "Av": Av, "bt": "vs", "B": [], "Bv": vs_enc(sb), "ctx": "vs"}
+            fresh = lambda: (mk_vs(sa, W), mk_vs(sb, W))  # noqa: E731
+            vs_emit(out, {**base, "op": "sub"}, run2(lambda a, b: be_call("__sub__", (a, b)), None, fresh), stats)
+            for op in ("eq", "ne", "ULE"):
+                vs_emit(out, {**base, "op": op},
+                        run2(lambda a, b, o=CMP[op][0]: be_call(o, (a, b)), None, fresh), stats)
+            for name in ("union", "widen", "intersection"):
+                vs_emit(out, {**base, "op": name}, run2(None, lambda a, b, nm=name: getattr(a, nm)(b), fresh), stats)
+    return stats
+
+
 GENS = {"pairs": gen_pairs, "unary": gen_unary, "concatx": gen_concat_x, "query": gen_query, "triple": gen_triple}
 
 
